@@ -7,9 +7,10 @@
              call of a *_NeedsSubMuxLock function with whether the caller holds the lock.
    scope   : guarded_fields below; "SecureChannel.instances[]" is the backing array of the per-channel token lists, which
              getInstancesBySecureChannelID hands out to the dispatcher WITHOUT the lock: it is race free only as long as
-             nobody writes such an array in place (today: fresh slice on expiry, append beyond the visible length).  NOT covered (see the check's notes): channelInstance.algo / sequenceNumber (accessed
-             through methods whose callers hold the instance lock: needs inter-procedural contracts), SecureChannel.
-             openingInstance / requestID (ordered by message causality, not by a lock), and every field not listed. *)
+             nobody writes such an array in place (today: fresh slice on expiry, append beyond the visible length).  NOT covered (see the check's notes): channelInstance.sequenceNumber (one spot in open, see
+             C36_sequence_number_unguarded_only_in_open), channelInstance.algo (the receive path reads it lock-free; it
+             is ordered by the OpenSecureChannel handshake), SecureChannel.openingInstance / requestID (ordered by
+             message causality, not by a lock), and every field not listed. *)
 From Coq Require Import Bool String List.
 From Opcua Require Import Model.Lockset Proofs.LocksetProofs Gen.LockSites.
 Import ListNotations.
@@ -19,6 +20,7 @@ Definition guarded_fields : list string :=
   [ "SecureChannel.instances"; "SecureChannel.instances[]" (* the token lists themselves: they escape the lock *);
     "SecureChannel.activeInstance"; "SecureChannel.handlers"; "SecureChannel.chunks";
     "Client.subs"; "Client.pendingAcks";
+    "Node.val"; "Node.attr" (* guarded by Node.mu since the fix of race/Node.val *);
     "MonitoredItemService.Items"; "MonitoredItemService.Nodes"; "MonitoredItemService.Subs";
     "SubscriptionService.Subs"; "sessionBroker.s"; "channelBroker.s" ].
 
@@ -47,16 +49,31 @@ Theorem C36_race_free_on_guarded_fields : forall progs,
   forall s, reachable (start progs) s -> ~ racy s.
 Proof. intros progs Hf s Hr. exact (lockset_race_free guarded_table progs C36_guarded_table_ok Hf s Hr). Qed.
 
-(* the property at full strength over the property's own field list is refuted by the lock discipline of Node.val:
-   Node.SetAttribute writes it and Node.Attribute reads it with no mutex at all *)
-Definition C36_statement : Prop := table_ok (sites_of ("Node.val" :: guarded_fields)) = true.
+(* before the fix (server/node.go without Node.mu) the same side condition failed on Node.val: Node.SetAttribute wrote it
+   and Node.Value / Node.Attribute read it with no mutex at all; the race detector reproduced it.  Kept as a regression
+   witness of what the table looked like. *)
+Definition node_val_sites_before_fix : list site :=
+  [ {| s_loc := "Node.val"; s_kind := ARead; s_locks := [] |};      (* Node.Value *)
+    {| s_loc := "Node.val"; s_kind := ARead; s_locks := [] |};      (* Node.Attribute *)
+    {| s_loc := "Node.val"; s_kind := AWrite; s_locks := [] |} ].   (* Node.SetAttribute *)
 
-Theorem C36_refuted_node_val : ~ C36_statement.
-Proof. unfold C36_statement. vm_compute. discriminate. Qed.
+Theorem C36_refuted_node_val_before_fix : table_ok node_val_sites_before_fix = false.
+Proof. vm_compute. reflexivity. Qed.
 
 Theorem C36_node_val_pair_races : forall r1 r2,
   racy (start [Acc "Node.val" AWrite :: r1; Acc "Node.val" ARead :: r2]).
 Proof. intros r1 r2. apply (unguarded_pair_races "Node.val" AWrite ARead [] [] r1 r2). reflexivity. Qed.
+
+(* why channelInstance.sequenceNumber is not in the list although the send path's caller-holds-lock contracts
+   (nextSequenceNumber, newMessage, newRequestMessage, writeMessageChunks, open) all check: the only accesses without
+   the instance lock are in SecureChannel.open, which writes the counter of the OPENING instance (copied from the
+   old instance on renewal, handed back after a failed renewal) - an object that is already reachable through
+   s.openingInstance; the source marks the spot "TODO: lock?".  Everything else is guarded. *)
+Theorem C36_sequence_number_unguarded_only_in_open :
+  forallb (fun x => match x with (st, fn, _, _) =>
+             negb (String.eqb (s_loc st) "channelInstance.sequenceNumber") ||
+             holds_excl (s_locks st) "channelInstance.Mutex" || String.eqb fn "SecureChannel.open" end) lock_sites = true.
+Proof. vm_compute. reflexivity. Qed.
 
 (* the hypotheses are satisfiable: two threads taking the locks as the code does follow the table *)
 Example C36_nonvacuous :
@@ -70,5 +87,6 @@ Print Assumptions C36_every_guarded_field_has_sites.
 Print Assumptions C36_guarded_table_ok.
 Print Assumptions C36_contracts_hold.
 Print Assumptions C36_race_free_on_guarded_fields.
-Print Assumptions C36_refuted_node_val.
+Print Assumptions C36_refuted_node_val_before_fix.
 Print Assumptions C36_node_val_pair_races.
+Print Assumptions C36_sequence_number_unguarded_only_in_open.
